@@ -1,0 +1,129 @@
+//go:build verif
+
+// Contracts for the polynomial objects of the IOP toolbox of this field (comment-only; installed by /verif/gcv
+// gen-contracts). Layer "ring fr.Element bigint big.Int": coefficients are elements of an abstract commutative
+// ring, *big.Int cells hold mathematical integers. A Polynomial with shift s and size n denotes P(w^s X) where w
+// is the generator of the subgroup of order n (fft.Generator(n)) and P the polynomial held by the shared
+// coefficient vector; in LagrangeCoset form the point is first divided by the coset shift.
+
+package iop
+
+//@ func smallExp
+//@ layer ring fr.Element bigint big.Int
+//@ option distribute
+//@ ensures[e0] n == 0 ==> result == 1
+//@ ensures[e1] n == 1 ==> result == x
+//@ ensures[e2] n == 2 ==> result == x*x
+//@ ensures[e3] n == 3 ==> result == x*x*x
+//@ ensures[e4] n == 4 ==> result == x*x*x*x
+//@ ensures[e5] n == 5 ==> result == x*x*x*x*x
+//@ modifies nothing
+//@ end
+
+//@ func polynomial.evaluate
+//@ layer ring fr.Element bigint big.Int
+//@ smt (define-fun-rec horner ((a (Array Int Int)) (v Int) (k Int) (n Int)) Int (ite (>= k n) 0 (+ (select a k) (* v (horner a v (+ k 1) n)))))
+//@ smt-fun horner Int
+//@ requires p.Form.Basis == Canonical && p.Form.Layout == Regular
+//@ loop 0
+//@ + invariant[tail] -1 <= i && i <= len(*p.coefficients) - 1 && r == ufint_horner(*p.coefficients, x, i+1, len(*p.coefficients))
+//@ ensures[canonical-regular] result == ufint_horner(*p.coefficients, x, 0, len(*p.coefficients))
+//@ modifies nothing
+//@ end
+
+//@ func Polynomial.Evaluate
+//@ layer ring fr.Element bigint big.Int
+//@ option distribute
+//@ option nomerge
+//@ option panics-allowed
+//@ option opaque evaluate Generator
+//@ requires p.size >= 0
+//@ ghost x0 = x
+//@ ghost pt = x
+//@ ghost onrecv = false
+//@ ghost res = x
+//@ ghost gen = x
+//@ ghost gensize = 0
+//@ ghost shifted = false
+//@ cut after call Generator #1
+//@ + ghost gen = callresult0
+//@ + ghost gensize = callarg0
+//@ + ghost shifted = true
+//@ cut after call evaluate #1
+//@ + ghost pt = callarg1
+//@ + ghost res = callresult
+//@ + ghost onrecv = same(callarg0, p.polynomial)
+//@ cut after call evaluate #2
+//@ + ghost pt = callarg1
+//@ + ghost res = callresult
+//@ + ghost onrecv = same(callarg0, p.polynomial)
+//@ cut after call evaluate #3
+//@ + ghost pt = callarg1
+//@ + ghost res = callresult
+//@ + ghost onrecv = same(callarg0, p.polynomial)
+//@ ghost-final base = ite(p.polynomial.Form.Basis == LagrangeCoset, x0 * inv(p.coset), x0)
+//@ ensures[result] result == res && onrecv
+//@ ensures[unshifted] p.shift == 0 ==> pt == base
+//@ ensures[generator] p.shift != 0 ==> shifted && gensize == p.size
+//@ ensures[shift-1] p.shift == 1 ==> pt == base * gen
+//@ ensures[shift-2] p.shift == 2 ==> pt == base * gen*gen
+//@ ensures[shift-3] p.shift == 3 ==> pt == base * gen*gen*gen
+//@ ensures[shift-4] p.shift == 4 ==> pt == base * gen*gen*gen*gen
+//@ ensures[shift-5] p.shift == 5 ==> pt == base * gen*gen*gen*gen*gen
+//@ ensures[shift-any] (p.shift < 0 || p.shift > 5) ==> pt == base * rexp(gen, p.shift)
+//@ modifies nothing
+//@ end
+
+//@ func Polynomial.ShallowClone
+//@ layer ring fr.Element bigint big.Int
+//@ option inline
+//@ ensures[fields] result.shift == p.shift && result.size == p.size && result.coset == p.coset
+//@ ensures[shared] same(result.polynomial, p.polynomial)
+//@ ensures[fresh] fresh(result)
+//@ modifies nothing
+//@ end
+
+//@ func polynomial.clone
+//@ layer ring fr.Element bigint big.Int
+//@ option inline
+//@ ensures[form] result.Form.Basis == p.Form.Basis && result.Form.Layout == p.Form.Layout
+//@ ensures[length] len(*result.coefficients) == len(*p.coefficients)
+//@ ensures[value] forall(j, 0, len(*p.coefficients), (*result.coefficients)[j] == (*p.coefficients)[j])
+//@ ensures[fresh] fresh(result)
+//@ modifies nothing
+//@ end
+
+//@ func Polynomial.Clone
+//@ layer ring fr.Element bigint big.Int
+//@ ensures[fields] result.shift == p.shift && result.size == p.size && result.coset == p.coset
+//@ ensures[form] result.polynomial.Form.Basis == p.polynomial.Form.Basis && result.polynomial.Form.Layout == p.polynomial.Form.Layout
+//@ ensures[length] len(*result.polynomial.coefficients) == len(*p.polynomial.coefficients)
+//@ ensures[value] forall(j, 0, len(*p.polynomial.coefficients), (*result.polynomial.coefficients)[j] == (*p.polynomial.coefficients)[j])
+//@ ensures[fresh] fresh(result)
+//@ modifies nothing
+//@ end
+
+//@ func NewPolynomial
+//@ layer ring fr.Element bigint big.Int
+//@ ensures[fields] result.shift == 0 && result.size == len(*coeffs) && result.coset == 0
+//@ ensures[form] result.polynomial.Form.Basis == form.Basis && result.polynomial.Form.Layout == form.Layout
+//@ ensures[shared] same(result.polynomial.coefficients, coeffs)
+//@ modifies nothing
+//@ end
+
+//@ func Polynomial.Shift
+//@ layer ring fr.Element bigint big.Int
+//@ ensures[value] p.shift == shift && p.size == old(p.size) && p.coset == old(p.coset) && same(p.polynomial, old(p.polynomial))
+//@ ensures[result] result == p
+//@ modifies p
+//@ end
+
+//@ func Polynomial.GetCoeff
+//@ layer ring fr.Element bigint big.Int
+//@ requires p.size >= 1 && len(*p.polynomial.coefficients) >= 1
+//@ requires 0 <= i && i <= 1099511627776 && 0 <= p.shift && p.shift <= 1048576
+//@ requires p.polynomial.Form.Layout == Regular
+//@ ensures[stride] n == len(*p.polynomial.coefficients) && rho == n / p.size
+//@ ensures[regular] result == (*p.polynomial.coefficients)[(i + rho * p.shift) % n]
+//@ modifies nothing
+//@ end
